@@ -16,6 +16,8 @@ pub open spec fn tiles(spans: Seq<HighlightSpan>, cur: int) -> bool {
 #[verifier::external_body] pub struct TokenizerOptions { _p: u8 }
 impl Shell { #[verifier::external_body] pub fn parser_options(&self) -> ParserOptions { unimplemented!() } }
 impl ParserOptions { #[verifier::external_body] pub fn tokenizer_options(&self) -> TokenizerOptions { unimplemented!() } }
+// std: String::len is the length in bytes
+pub assume_specification [String::len] (s: &String) -> (r: usize) ensures r == byte_len(s@);
 // projections of brush-parser source.rs / tokenizer.rs (Arc erased: read-only data)
 pub struct SourcePosition { pub index: usize, pub line: usize, pub column: usize }
 pub struct SourceSpan { pub start: SourcePosition, pub end: SourcePosition }
